@@ -9,7 +9,9 @@ Import ListNotations.
 Inductive eop :=
 | EPut (i : nat) | ERemove (i : nat) | EExist (i : nat)
 | EBlock (bid parent cid : N) (st : list (N * Z)) (dirty : list N)
-| EEvict (accs : list N) | EUnconf (accs : list N) | EGet.
+| EEvict (accs : list N) | EUnconf (accs : list N) | EGet
+(** a put whose unlocked validation and locked insertion are separated by a block arrival *)
+| ERacePut (i : nat) (bid parent cid : N) (st : list (N * Z)) (dirty : list N).
 
 (** (result code, length, orphan, lists (account, base nonce, ready, tx ids), cache ids
     ascending, get result per account, getUnconfirmed result) *)
@@ -71,6 +73,12 @@ Definition estep (tbl : list tx) (m : mstate) (eo : eop * eobs) : mstate * bool 
   | EBlock bid par cid st dirty =>
       let m' := block_arrival m (mkB bid par cid (st_of st) dirty) in
       (m', state_ok (pl m') o)
+  | ERacePut i bid par cid st dirty =>
+      let t := get_tx tbl i in
+      let r := put_check m t in
+      let m1 := block_arrival m (mkB bid par cid (st_of st) dirty) in
+      let '(r2, m2) := match r with POk => pool_insert m1 t | e => (e, m1) end in
+      (m2, (perr_code r2 =? res)%N && state_ok (pl m2) o)
   | EEvict accs => let m' := evict m accs in (m', state_ok (pl m') o)
   | EUnconf accs =>
       let '(r, m') := unconfirmed m accs in
@@ -123,3 +131,32 @@ Definition pool_invb (p : pool) : bool :=
   && list_N_eqb (nsort (ids (cache p))) (nsort (ids (all_txs (lists p))))
   && (plen p =? Z.of_nat (length (all_txs (lists p))))%Z
   && (porphan p =? sum_orphans (lists p))%Z.
+
+(* ---- list level: a real txList driven directly ---- *)
+Inductive lop := LPut (t : tx) | LRemove (h : txid) | LFilter (st : ast) | LGet.
+(** (result code, orphan diff, base nonce, ready, ids held, ids removed, ids returned by Get) *)
+Definition lobs : Type := N * Z * N * nat * list N * list N * list N.
+
+Definition lstep (l : txlist) (x : lop * lobs) : txlist * bool :=
+  let '(o, (res, diff, b, r, held, removed, got)) := x in
+  let same (l' : txlist) := (s_nonce (base l') =? b)%N && (ready l' =? r) && list_N_eqb (ids (txs l')) held in
+  match o with
+  | LPut t => match tl_put l t with
+              | inl (d, l') => (l', (res =? 0)%N && (d =? diff)%Z && same l')
+              | inr e => (l, (perr_code e =? res)%N && (diff =? 0)%Z && same l)
+              end
+  | LRemove h => let '(d, rm, l') := tl_remove l h in
+                 (l', (d =? diff)%Z && same l'
+                      && list_N_eqb (match rm with Some x => [t_id x] | None => [] end) removed)
+  | LFilter st => let '(d, rm, l') := tl_filter l st in
+                  (l', (d =? diff)%Z && same l' && list_N_eqb (ids rm) removed)
+  | LGet => (l, same l && list_N_eqb (ids (tl_pooled l)) got)
+  end.
+
+Fixpoint lrun (l : txlist) (xs : list (lop * lobs)) (i : nat) : nat :=
+  match xs with
+  | [] => O
+  | x :: r => let '(l', ok) := lstep l x in if ok then lrun l' r (S i) else S i
+  end.
+Definition lcase : Type := ast * list (lop * lobs).
+Definition lcase_bad_step (c : lcase) : nat := let '(b, xs) := c in lrun (mkTl b [] 0) xs 0.
